@@ -194,6 +194,14 @@ func (fe *FnExec) uninterp(name string, args []Term, ret *Sort) string {
 	return q
 }
 
+// boxFuncs declares the injective boxing of non-integer scalars into interface payloads.
+func (fe *FnExec) boxFuncs(s *Sort) (box, unbox string) {
+	box, unbox = "|box."+s.Name+"|", "|unbox."+s.Name+"|"
+	fe.addPrelude("box:"+s.Name, "(declare-fun "+box+" ("+s.String()+") Int)\n(declare-fun "+unbox+" (Int) "+s.String()+")\n"+
+		"(assert (forall ((x "+s.String()+")) (! (= ("+unbox+" ("+box+" x)) x) :pattern (("+box+" x)))))")
+	return
+}
+
 const basePrelude = `(set-option :produce-models true)
 (set-logic ALL)
 (declare-sort Str 0)
